@@ -49,6 +49,15 @@ fn make_sandbox() -> PathBuf {
     dir
 }
 
+fn make_sandbox_n(n: u32) -> PathBuf {
+    let base = if std::path::Path::new("/dev/shm").is_dir() { PathBuf::from("/dev/shm") } else { std::env::temp_dir() };
+    let dir = base.join(format!("bitasim.{}.{}", std::process::id(), n));
+    let _ = std::fs::remove_dir_all(&dir);
+    std::fs::create_dir_all(&dir).expect("create sandbox");
+    std::env::set_current_dir(&dir).expect("chdir sandbox");
+    dir
+}
+
 fn load_known(path: Option<&str>) -> Vec<(String, String)> {
     // (property, class prefix) of findings with status "known"
     let Some(p) = path else { return Vec::new() };
@@ -87,6 +96,13 @@ fn main() {
     // like every later one
     let _ = num_cpus_warmup();
     harness::install_panic_hook();
+    // diagnostic overrides, never set by ./check
+    if let Some(v) = std::env::var("BITASIM_STEP_BUDGET").ok().and_then(|v| v.parse::<u64>().ok()) {
+        simkit::DEFAULT_STEP_BUDGET.store(v, std::sync::atomic::Ordering::Relaxed);
+    }
+    if let Some(v) = std::env::var("BITASIM_RUN_TIMEOUT").ok().and_then(|v| v.parse::<u64>().ok()) {
+        harness::RUN_TIMEOUT_SECS.store(v, std::sync::atomic::Ordering::Relaxed);
+    }
     harness::install_logger();
     match args[1].as_str() {
         "list" => {
@@ -124,7 +140,7 @@ fn cmd_run(args: &[String]) {
         eprintln!("unknown property {}", prop);
         std::process::exit(2);
     });
-    let sandbox = make_sandbox();
+    let mut sandbox = make_sandbox();
     let progress_path = arg(args, "--progress").map(PathBuf::from);
     let mut trace_out = arg(args, "--trace-out").map(|p| std::io::BufWriter::new(std::fs::File::create(p).expect("trace-out")));
     let mut hashes_out = arg(args, "--hashes-out").map(|p| std::io::BufWriter::new(std::fs::File::create(p).expect("hashes-out")));
@@ -144,6 +160,7 @@ fn cmd_run(args: &[String]) {
     let mut harness_errors: Vec<Value> = Vec::new();
     let mut samples: Vec<Value> = Vec::new();
     let mut stopped_early = false;
+    let mut hung = 0u32;
 
     for k in 0..count {
         let index = start + k * stride;
@@ -195,6 +212,14 @@ fn cmd_run(args: &[String]) {
             if harness_errors.len() < 5 {
                 harness_errors.push(json!({"index": index, "error": e}));
             }
+            hung += 1;
+            if hung >= 3 {
+                // do not spend the whole budget waiting for runs that cannot come back
+                stopped_early = true;
+                break;
+            }
+            // the abandoned thread may still sit in the old sandbox: move on to a fresh one
+            sandbox = make_sandbox_n(hung);
             continue;
         }
         if want_sample {
@@ -235,6 +260,11 @@ fn cmd_run(args: &[String]) {
     drop(hashes_out);
     let _ = std::env::set_current_dir("/");
     let _ = std::fs::remove_dir_all(&sandbox);
+    for n in 0..4 {
+        let base = if std::path::Path::new("/dev/shm").is_dir() { PathBuf::from("/dev/shm") } else { std::env::temp_dir() };
+        let _ = std::fs::remove_dir_all(base.join(format!("bitasim.{}.{}", std::process::id(), n)));
+        let _ = std::fs::remove_dir_all(base.join(format!("bitasim.{}", std::process::id())));
+    }
     let out = json!({
         "prop": prop,
         "seed": seed,
